@@ -31,7 +31,14 @@ Pool == <<
     Ct("MemUser", <<FnDecl("function", "take", VisAttr("external"), <<<<[present |-> TRUE, storage |-> "memory", name |-> "blob"]>>, <<N("E.ArraySubscript", A0, <<<<U256>>, <<>>>>)>>>>, <<>>, TRUE, <<>>)>>),
     Ct("BadNames", <<StateVar("plainPrivate", U256, <<"private">>, <<>>), Fn("_exposed", "public", <<>>),
                      StateVar("LIMIT", U256, <<"public", "constant">>, <<Num("5")>>)>>),
-    N("SUP.VariableDefinition", [name |-> "FILE_K", vattrs |-> <<"constant">>], <<<<U256>>, <<Bin("E.Power", Num("10"), Num("18"))>>>>)
+    N("SUP.VariableDefinition", [name |-> "FILE_K", vattrs |-> <<"constant">>], <<<<U256>>, <<Bin("E.Power", Num("10"), Num("18"))>>>>),
+    \* carriers and receivers of state that must be per item: a one-variable contract leaves nothing to compare, a
+    \* contract whose declared layout is optimal stays optimal whatever precedes it in the file
+    Ct("OneAddr", <<StateVar("oa", Ty("address", 0), <<>>, <<>>)>>),
+    Ct("OneBool", <<StateVar("ob", Ty("bool", 0), <<>>, <<>>)>>),
+    Ct("TightBool", <<StateVar("tb1", U256, <<>>, <<>>), StateVar("tb2", Ty("bool", 0), <<>>, <<>>)>>),
+    Ct("TightAddr", <<StateVar("ta1", U256, <<>>, <<>>), StateVar("ta2", Ty("address", 0), <<>>, <<>>),
+                      Fn("setTa", "public", <<Asg("ta1", Num("1")), Asg("ta2", MsgSender)>>)>>)
 >>
 P == 1 .. Len(Pool)
 L(lab, t) == [label |-> lab, tree |-> t]
